@@ -54,7 +54,9 @@ ITEMS = ['x', '', b'yz', 'é✓', b'\xff\xfe', 'c' * 5000, b'', 'tail\r\n']
 FILE_SIZES = [0, 1, 4095, 4096, 4097, 10000]
 PIPE_SIZES = [1, 700, 1000, 4096, 1500, 5000, 4095, 3000]   # bytes that "have arrived" when read() is called (same index range as ITEMS)
 READ_SIZE = 4096                                            # circuits.net.sockets.BUFSIZE, the n of file_generator's read(n)
-STATUSES = [201, 202, 404, 500, 413, 206]
+# every final status circuits knows a reason phrase for, except the body-less ones (NOBODY): "every status class"
+STATUSES = [201, 202, 404, 500, 413, 206, 200, 203, 205, 207, 226, 300, 301, 302, 303, 305, 307, 400, 401, 402, 403, 405, 406,
+            407, 408, 409, 410, 411, 412, 414, 415, 416, 417, 418, 422, 423, 424, 426, 449, 501, 502, 503, 504, 505, 507, 510]
 NOBODY = [204, 304, 101]
 HTTPEXC = [NotFound, Forbidden, Gone, ServiceUnavailable]
 REDIR_CODES = [None, 301, 302, 303, 307]
@@ -224,7 +226,7 @@ class Root(Controller):
             return res
         if k == 'status':
             res.status = STATUSES[a % len(STATUSES)]
-            return STRS[(a // len(STATUSES)) % len(STRS)]
+            return STRS[(a // 6) % len(STRS)]
         if k == 'nobody':
             res.status = NOBODY[(a // 2) % len(NOBODY)]
             return STRS[a % len(STRS)] if a % 2 else ''
@@ -332,7 +334,7 @@ def expectation(p, n):
         body = b''.join(enc(x) for x in v) if isinstance(v, list) else enc(v)
     elif k == 'status':
         st_ = (STATUSES[a % len(STATUSES)],)
-        body = enc(STRS[(a // len(STATUSES)) % len(STRS)])
+        body = enc(STRS[(a // 6) % len(STRS)])
     elif k == 'nobody':
         st_ = (NOBODY[(a // 2) % len(NOBODY)],)
         body = b''
@@ -409,7 +411,7 @@ class C15(Prop):
     def strategy(self, tier):
         req = st.fixed_dictionaries({
             'kind': st.sampled_from(WEIGHTED),
-            'a': st.integers(0, 29),
+            'a': st.one_of(st.integers(0, 29), st.integers(0, 6 * len(STATUSES) - 1)),
             'items': st.lists(st.integers(0, len(ITEMS) - 1), max_size=5 if tier == 'quick' else 8),
             'ver': st.sampled_from(['1.1', '1.1', '1.0']),
             'conn': st.sampled_from([None, None, 'keep-alive', 'keep-alive', 'Keep-Alive', 'close']),
